@@ -1,6 +1,7 @@
 import LLRP.Model.Codec
 import LLRP.Gen.Schema
 import LLRP.Proofs.DecodeFuel
+import LLRP.Proofs.DecodeSize
 /-!
 # C11 — Decoding arbitrary bytes always terminates with a value or an error
 
@@ -181,6 +182,29 @@ theorem fuel_needs_table :
     decBody [leafL, leafK, manyGroups] (4 * ([] : Bytes).length + 8) manyGroups [] = none ∧
     (decBody [leafL, leafK, manyGroups] 10 manyGroups []).isSome = true ∧
     (decode [leafL, leafK, manyGroups] manyGroups []).isSome = true := by decide +kernel
+
+/-! ## the decoded value is linear in the input
+
+Every `decParam` call that contributes a parameter to the result consumed at least one byte that no other parameter at
+the same level consumed (and a nested body is cut out of its parent's bytes), so a value decoded from `d` has at most
+`d.length` parameters: the work and the allocation that end up in a successful result are bounded by the input length.
+(A count of *all* `decParam` calls, failed ones included, would need an instrumented copy of the decoder; the failed
+call is the last one at its level, so that count is at most one more per nesting level.) -/
+
+/-- a parameter decoded from the head of `d`: its nodes are paid for by the bytes it consumed -/
+theorem decParam_nodes (S : Schema) (n : Nat) (p : Container) (d : Bytes) (v : Val) (d' : Bytes)
+    (h : decParam S n p d = some (v, d')) : v.nodes + d'.length ≤ d.length :=
+  decParam_size S n p d v d' h
+
+/-- **a successful decoding of `d` yields at most `d.length` parameters** (`Val.nodes` counts the root as well) -/
+theorem decoded_params_le (S : Schema) (c : Container) (d : Bytes) (v : Val) (h : decode S c d = some v) :
+    v.nodes ≤ d.length + 1 := by
+  have := decBody_size S _ c d v h
+  omega
+
+example : (decode Gen.schema Gen.m_ROAccessReport
+    [0, 240, 0, 25, 0x8d, 1, 2, 3, 4, 5, 6, 7, 8, 9, 10, 11, 12, 0x81, 0, 3, 0x86, 0xd0, 0x8a, 0, 1]).map Val.nodes = some 6 := by
+  decide +kernel
 
 /-- the empty input is rejected by every container that has a required part, accepted as the empty value otherwise:
 non-vacuity of the decoder on the smallest input -/
